@@ -5,7 +5,7 @@ SPEC = {
     "lean_dirs": ["SemaModel/C04", "SemaModel/C08"],
     "harness": "c04",
     "harness_args": {
-        "quick": ["-store", 60, "-ops", 40, "-hist", 14, "-batches", 9, "-queries", 3],
+        "quick": ["-store", 150, "-ops", 45, "-hist", 30, "-batches", 10, "-queries", 3],
         "thorough": ["-store", 400, "-ops", 60, "-hist", 70, "-batches", 14, "-queries", 4, "-big", 2],
     },
     "timeout": {"quick": 600, "thorough": 3000},
